@@ -5,7 +5,10 @@ Everything is computed from the ops file and the IMPLEMENTATION transcript only,
 an `sdump` line (raw decoded module state) after every state-changing op; the predicates only ever compare
 observations that are directly adjacent to an op, so removing lines (delta debugging) can never create a failure.
 
-Readings (DESIGN.md section 7): R1 "stake" = the delegation's fractional value kept by the module; R2 the envelope of
+Readings (DESIGN.md section 7): R1 "stake" = the delegation's fractional value kept by the module (the upper bound of
+C15 counts every interval on that value; the lower bound counts the intervals in which the delegation is SHOWN, i.e. is
+worth at least one whole token — a sub-token remnant that the Delegation query no longer shows earns nothing while it
+is alone with its validator, whose whole-token total is then 0; C15.shown_delegation_accrues is the matching theorem); R2 the envelope of
 C16 is never-increases / exact-when-whole / frame / p = 1 removes / rejection; R7 every C15 bound carries a slack of a
 few 10^-18 tokens per reward update.
 """
@@ -14,14 +17,6 @@ from fractions import Fraction
 ONE = 10 ** 18
 YEAR = 60 * 60 * 24 * 365
 QUERY_OPS = ("q-deleg", "q-all", "bal", "obs", "sdump", "dec")
-
-# The validator total (`validator_info.stake`, whole tokens) is scaled by a slash independently of the delegators'
-# fractional shares and can drift below their sum; once it reaches 0 while a delegation is still shown, that
-# delegation accrues nothing. This breaks the lower bound of C15 (replay in the final report of the staking slice).
-# True (default; CWMT_STRICT_DRIFT=0 switches it off) = the predicates report such cases, tagged `[validator-total-drift]`;
-# False = periods in which the recorded validator total is 0 are left out of the lower bound.
-import os as _os
-STRICT_DRIFT = _os.environ.get("CWMT_STRICT_DRIFT", "1") != "0"
 
 
 def _parse_obs(line):
@@ -307,7 +302,7 @@ def pred_c14(ops, impl):
 
 def pred_c15(ops, impl):
     h = _Hist()
-    tracked = {}      # (d, v) -> dict(E, paid, w, drift)
+    tracked = {}      # (d, v) -> dict(E, paid, w)
     for (i, t, out, bo, bd, ao, ad) in _Walk(ops, impl).events():
         op = " ".join(t)
         where = "op %d `%s`: " % (i, op)
@@ -348,17 +343,17 @@ def pred_c15(ops, impl):
             for k, st in tracked.items():
                 if k in bd["stakes"] and k[1] in h.vals:
                     c = h.vals[k[1]]
-                    st["E"] += Fraction(bd["stakes"][k][0], ONE) * Fraction(h.apr, ONE) * Fraction(ONE - c, ONE) * Fraction(secs, YEAR)
-                    if bd["vinfo"].get(k[1], (1,))[0] == 0 and bd["stakes"][k][0] > 0 and secs > 0:
-                        st["drift"] = True
-                        if not STRICT_DRIFT:
-                            st["E"] -= Fraction(bd["stakes"][k][0], ONE) * Fraction(h.apr, ONE) * Fraction(ONE - c, ONE) * Fraction(secs, YEAR)
+                    inc = Fraction(bd["stakes"][k][0], ONE) * Fraction(h.apr, ONE) * Fraction(ONE - c, ONE) * Fraction(secs, YEAR)
+                    st["E"] += inc                      # upper bound: every interval, on the fractional value (R1)
+                    if bd["stakes"][k][0] >= ONE:
+                        st["Elo"] += inc                # lower bound: only while the delegation is SHOWN (>= 1 token);
+                                                        # a sub-token remnant whose validator total is 0 accrues nothing
         if t[0] == "redeleg" and out == "ok" and len(t) >= 5 and t[2] == t[3] and bd is not None:
             # a redelegation is an undelegation followed by a delegation; moving the whole delegation onto the same
             # validator takes it through zero, which ends the period (the module drops the record and its reward)
             k = (t[1], t[2])
             if k in tracked and bd["stakes"].get(k, (None,))[0] == int(t[4]) * ONE:
-                tracked[k] = {"E": Fraction(0), "paid": 0, "w": 0, "drift": False}
+                tracked[k] = {"E": Fraction(0), "Elo": Fraction(0), "paid": 0, "w": 0}
         h.apply(t, out)
         if t[0] == "advance" and out == "ok":
             h.pending = [p for p in h.pending if p[3] > h.now]
@@ -368,7 +363,7 @@ def pred_c15(ops, impl):
                     del tracked[k]                     # the delegation ended: the period is over
             for k in ad["stakes"]:
                 if k not in bd["stakes"] and k not in tracked:
-                    tracked[k] = {"E": Fraction(0), "paid": 0, "w": 0, "drift": False}
+                    tracked[k] = {"E": Fraction(0), "Elo": Fraction(0), "paid": 0, "w": 0}
         if ao is not None:
             slack = Fraction(10 * (3 + h.nslash) * h.nops, ONE)
             for k, st in tracked.items():
@@ -379,10 +374,9 @@ def pred_c15(ops, impl):
                 if got > st["E"] + slack:
                     return where + "%s/%s: withdrawn %d + pending %d exceeds stake x rate x (1-commission) x time = %s" % (
                         k[0], k[1], st["paid"], x[1], float(st["E"]))
-                if st["E"] - got >= st["w"] + 1 + slack:
-                    tag = " [validator-total-drift]" if st["drift"] else ""
-                    return where + "%s/%s: withdrawn %d + pending %d falls short of %s by more than %d withdrawal(s) + 1%s" % (
-                        k[0], k[1], st["paid"], x[1], float(st["E"]), st["w"], tag)
+                if st["Elo"] - got >= st["w"] + 1 + slack:
+                    return where + "%s/%s: withdrawn %d + pending %d falls short of %s by more than %d withdrawal(s) + 1" % (
+                        k[0], k[1], st["paid"], x[1], float(st["Elo"]), st["w"])
     return None
 
 
@@ -439,7 +433,7 @@ def pred_c16(ops, impl):
                     for k in ad["stakes"]:
                         if k not in bd["stakes"]:
                             return where + "a delegation %s/%s appeared" % k
-                    if STRICT_DRIFT and ao is not None:
+                    if ao is not None:
                         # "(1 - p) times its value rounded down to whole tokens; sub-token remainders may additionally
                         # be dropped": at most one whole token below the floor of the scaled fractional value (R2)
                         for k, (st, rw) in bd["stakes"].items():
@@ -447,7 +441,7 @@ def pred_c16(ops, impl):
                                 shown = ao["pairs"][k][0] if ao["pairs"][k] else 0
                                 want = (st * rem) // (ONE * ONE)
                                 if shown < want - 1:
-                                    return where + "%s/%s is worth %s tokens, scaled %s, but shows %d afterwards: more than a sub-token remainder was dropped [validator-total-drift]" % (
+                                    return where + "%s/%s is worth %s tokens, scaled %s, but shows %d afterwards: more than a sub-token remainder was dropped" % (
                                         k[0], k[1], float(Fraction(st, ONE)), float(Fraction(st * rem, ONE * ONE)), shown)
                     if p == ONE and any(k[1] == v for k in ad["stakes"]):
                         return where + "p = 1 but delegations to %s remain" % v
@@ -515,3 +509,43 @@ def nt_c16(ops, impl):
         if o.startswith("slash") and r == "ok" and not o.endswith(" 0"):
             n += 1
     return n >= 2
+
+
+# ==================================================================================================
+# C19 on the staking engine (slice `staking-det`)
+
+def _split_apps(ops, impl):
+    texts, outs = {}, {}
+    app = "1"
+    for op, out in zip(ops, impl):
+        t = op.split()
+        if t and t[0] == "app" and len(t) == 2:
+            app = t[1]
+            continue
+        texts.setdefault(app, []).append(op)
+        outs.setdefault(app, []).append(out)
+    return texts, outs
+
+
+def pred_c19_staking(ops, impl):
+    """The same history on two fresh instances gives identical transcripts — including the `!h=` lines, i.e. the hash
+    of the complete raw storage after every op — no matter what happens on a third instance in between."""
+    texts, outs = _split_apps(ops, impl)
+    if "1" not in texts or "2" not in texts or texts["1"] != texts["2"]:
+        return None  # not a determinism case (e.g. after line removal by the minimiser)
+    for k, (a, c) in enumerate(zip(outs["1"], outs["2"])):
+        if a != c:
+            return "the same history on two fresh instances diverges at its op %d `%s`: %s vs %s" % (
+                k, texts["1"][k][:120], a[:120], c[:120])
+    return None
+
+
+def nt_c19_staking(ops, impl):
+    # non-trivial: on instance 1 at least two different delegators staked successfully with the same validator
+    texts, outs = _split_apps(ops, impl)
+    seen = {}
+    for op, out in zip(texts.get("1", []), outs.get("1", [])):
+        t = op.split()
+        if len(t) >= 4 and t[0] == "deleg" and out == "ok":
+            seen.setdefault(t[2], set()).add(t[1])
+    return "2" in texts and any(len(v) >= 2 for v in seen.values())
